@@ -597,6 +597,7 @@ func c02Construct(u map[string]bool) string {
 }
 
 func (ck c02) RunCase(c *Ctx, idx int) *CaseOut {
+	wrapIncludes = false
 	scrubAddrs, noAddr = false, false
 	if cliPath == "" {
 		cliPath = os.Getenv("VERIF_LIQUID_CLI")
